@@ -87,11 +87,15 @@ End(S, nr) == IF S.al # <<>> THEN Flush(S, nr) ELSE S
 (* (or the closing brace) is reached, End at the closing brace                                   *)
 Line == [asg : {TRUE}, w : Widths, len : Lens, nl : Breaks] \cup [asg : {FALSE}, w : {0}, len : {0}, nl : Breaks]
 ColOf(ln) == Indent + ln.w + 1            \* name, one blank, operator
-RECURSIVE Drive(_, _, _, _)
-Drive(S, P, i, nr) ==
+(* C[i] = the column the operator of line i stands in when the pass starts (ColOf on a first run; *)
+(* on a second run over the pass's own output - sp_assign = ignore keeps the blanks - the column   *)
+(* the first run put it in)                                                                        *)
+RECURSIVE DriveC(_, _, _, _, _)
+DriveC(S, P, C, i, nr) ==
   IF i > Len(P) THEN End(S, nr)
-  ELSE LET S1 == IF P[i].asg THEN Add(S, [id |-> i, col |-> ColOf(P[i]), len |-> P[i].len, seq |-> 0], 0, nr) ELSE S
-       IN Drive(NewLines(S1, P[i].nl, nr), P, i + 1, nr)
+  ELSE LET S1 == IF P[i].asg THEN Add(S, [id |-> i, col |-> C[i], len |-> P[i].len, seq |-> 0], 0, nr) ELSE S
+       IN DriveC(NewLines(S1, P[i].nl, nr), P, C, i + 1, nr)
+Drive(S, P, i, nr) == DriveC(S, P, [k \in 1..Len(P) |-> ColOf(P[k])], i, nr)
 ResultV(P, nr) == IF span = 0 THEN Start ELSE Drive(Start, P, 1, nr)
 Result(P) == ResultV(P, FALSE)
 (* final column of the operator of line i *)
@@ -125,6 +129,21 @@ NeighboursAlign(P, R) ==
         (P[i].asg /\ P[j].asg /\ (\A m \in (i + 1)..(j - 1) : ~P[m].asg) /\ BreaksBetween(P, i, j) <= span)
            => ColFinal(P, R, i) + Adj(P, i) = ColFinal(P, R, j) + Adj(P, j)
 
+(* ----------------------------------------------------------------- a second run (C05) *)
+(* the columns after the pass has run over its own output                                          *)
+ColsAgain(P) == LET C == Cols(P)
+                    R == IF span = 0 THEN Start ELSE DriveC(Start, P, C, 1, FALSE)
+                IN [i \in 1..Len(P) |-> IF ~P[i].asg THEN 0
+                                        ELSE IF Final(P, R, i) = 0 THEN C[i] ELSE R.out[Final(P, R, i)].col]
+(* Without a threshold the pass is a fixed point of itself.  With one it is not: an operator the   *)
+(* first run left alone (too far from the group) can be within the threshold of the columns the    *)
+(* first run produced - Stable is VIOLATED under Align_thresh_unstable.cfg, and the counterexample *)
+(* programs are the hazard set replayed on the binary for C05 (recorded finding: alignment          *)
+(* thresholds are judged against columns that alignment itself moves)                               *)
+Stable == ColsAgain(prog) = Cols(prog)
+StableWithoutThresh == thresh = 0 => Stable
+EmitUnstable == (Emit /\ prog # <<>> /\ ~Stable) =>
+                   PrintT("@@" \o ToJson([prog |-> prog, span |-> span, thresh |-> thresh, tabstop |-> tabstop, cols |-> Cols(prog), again |-> ColsAgain(prog)]))
 (* ----------------------------------------------------------------- behaviours *)
 Init == prog = <<>> /\ span \in Spans /\ thresh \in Threshs /\ tabstop \in TabStops
 Grow == /\ Len(prog) < MaxLines
